@@ -58,6 +58,10 @@ def gen_cases(tier, seed):
                 "reject_exc": rng.choice(["PermissionError", "FileNotFoundError"]),
                 "reject_create": (not weak) and rng.random() < 0.03,
                 "cancel": None if rng.random() < 0.9 else [rng.choice(["S", "D"]), rng.randrange(1, 12)]}
+        if rng.random() < 0.2:
+            # a long-lived entity: several transfers to the same destination path through the same handlers, user and filestore objects;
+            # the same or new content each time
+            case["repeat"] = [rng.choice(["same", "same", "new", "shorter"]) for _ in range(rng.choice([1, 2, 3]))]
         cases.append(case)
     return cases
 
@@ -86,14 +90,33 @@ def run_case(case):
             actions[case["cancel"][1]] = [("cancel", case["cancel"][0])]
         r = Runner(w, plan=plan, max_expiries=40, max_rounds=3000, actions=actions)
         internal = None
+        applied = []
         try:
             w.put()
             outcome = r.run()
+            applied = [(a[1], a[2]) for a in plan.applied]
+            for i, how in enumerate(case.get("repeat") or []):
+                for ep in (w.S, w.D):
+                    if ep.h.state.name != "IDLE":
+                        ep.reset()
+                        ep.drain()
+                    ep.outbox.clear()
+                if how == "new":
+                    w.data = bytes((b + 1 + i) & 0xFF for b in w.data)
+                elif how == "shorter":
+                    w.data = w.data[: max(0, len(w.data) - 3)]
+                w.cfg["size"] = len(w.data)
+                w.write_raw("src", w.src_path, w.data)
+                rej.clear()
+                plan = RandomPlan(case["seed"] + 7919 * (i + 1), case["p"])
+                r = Runner(w, plan=plan, max_expiries=40, max_rounds=3000)
+                w.put()
+                outcome = r.run()
+                applied += [(a[1], a[2]) for a in plan.applied]
         except InternalError as e:
             outcome = "internal-error"
             internal = f"{type(e.exc).__name__}"
         viol = list(mon.viol)
-        applied = [(a[1], a[2]) for a in plan.applied]
         nflip = sum(1 for a in applied if a[0] == "flip")
         for v in viol:
             v["faults_applied"] = applied[:40]
@@ -107,7 +130,7 @@ def run_case(case):
             "success_after_flip_or_rejection": mon.success_reports if (nflip or nrej[0]) and mon.success_reports else 0,
             "checksum_collisions": mon.collisions, "outcome_" + outcome: 1,
             "undeliverable_pdu_crc": r.unparsable, "cancel_sprinkled": int(bool(case["cancel"])),
-            "internal_errors_not_judged_here": int(internal is not None),
+            "internal_errors_not_judged_here": int(internal is not None), "repeated_transfers": len(case.get("repeat") or []),
         }
         for k, n in mon.by_reporter.items():
             obs["judged_" + k] = n
